@@ -71,7 +71,9 @@ HeightOf(c) == CASE c = "m10" -> 290 [] c = "other" -> 293 [] c = "m300" -> 300 
 \* ---- abstract summary of what is queued -------------------------------------------------------------
 \* stage of the oldest fee-paying cross-chain message: none -> fresh (queued, assigned) -> signed -> elected (gas
 \* estimate elected, fees attached) -> relayed (error / public access data set, waits for attestation) -> none
-Stages == {"idle", "fresh", "signed", "elected", "relayed"}
+\* further stages: a delivery report nobody attests (reportedpad: an unverifiable transaction hash; relayed: an error),
+\* contentious evidence (split: two validators against one), evidence only from a validator that is in no snapshot (newval)
+Stages == {"idle", "fresh", "signed", "elected", "relayed", "reportedpad", "split", "newval"}
 \* the blocks that put a stage in place (the driver delivers them right before the hostile block)
 StageScript(s) ==
   CASE s = "idle"    -> <<>>
@@ -79,6 +81,9 @@ StageScript(s) ==
     [] s = "signed"  -> << <<"execjob", "deployuser", "send">>, <<"sign">> >>
     [] s = "elected" -> << <<"execjob", "deployuser", "send">>, <<"sign">>, <<"estimate", "batchest">>, <<"sign", "confirm">> >>
     [] s = "relayed" -> << <<"execjob", "deployuser", "send">>, <<"sign">>, <<"estimate", "batchest">>, <<"sign", "confirm">>, <<"relayerr">> >>
+    [] s = "reportedpad" -> << <<"execjob", "deployuser", "send">>, <<"sign">>, <<"estimate", "batchest">>, <<"sign", "confirm">>, <<"relayok">> >>
+    [] s = "split"   -> << <<"execjob", "deployuser", "send">>, <<"sign">>, <<"estimate", "batchest">>, <<"sign", "confirm">>, <<"relayerr">>, <<"attestsplit3">> >>
+    [] s = "newval"  -> << <<"newval", "execjob", "deployuser", "send">>, <<"sign", "newvalalive">>, <<"estimate", "batchest">>, <<"sign", "confirm">>, <<"relayerr">>, <<"attestnew">> >>
 
 \* a block is a sequence of entries <<a, b, c>>: a template  <<"tpl", name, "">>  or a hostile entry  <<kind, parameter, class>>
 Tpl(n) == <<"tpl", n, "">>
@@ -88,8 +93,11 @@ StageAfter(s, txs) ==
   CASE s = "idle"    /\ Has(txs, "execjob")  -> "fresh"
     [] s = "fresh"   /\ Has(txs, "sign")     -> "signed"
     [] s = "signed"  /\ Has(txs, "estimate") -> "elected"
-    [] s = "elected" /\ (Has(txs, "relayerr") \/ Has(txs, "relayok")) -> "relayed"
-    [] s = "relayed" /\ Has(txs, "attesterr") -> "idle"
+    [] s = "elected" /\ Has(txs, "relayerr") -> "relayed"
+    [] s = "elected" /\ Has(txs, "relayok") -> "reportedpad"
+    [] s \in {"relayed", "reportedpad", "split", "newval"} /\ Has(txs, "attesterr") -> "idle"
+    [] s = "relayed" /\ Has(txs, "attestsplit3") -> "split"
+    [] s = "relayed" /\ Has(txs, "attestnew") -> "newval"
     [] OTHER -> s
 
 \* the blocks the drivers deliver before a hostile transaction of height class hc with stage s in place
